@@ -235,8 +235,10 @@ def classify(spec) -> list:
             if c['type'] in ('UNORDERED', 'UNORDERED_NOREPL'):
                 for i in range(len(order)):
                     for j in range(i + 1, len(order)):
-                        below = any(origs[i] == o or origs[i] in reach(o, full) for o in sel_by_key[order[j]]['options'])
-                        if origs[i] not in perm and (origs[j] in perm or below):
+                        # choice j can become active before choice i unless it sits below an option of choice i
+                        j_below_i = any(origs[j] == o or origs[j] in reach(o, full)
+                                        for o in sel_by_key[order[i]]['options'])
+                        if origs[i] not in perm and not j_below_i:
                             flags.add('con_order_later_active_first')
             if c['type'] == 'PERMUTATION' and len(order) > max(len(sel_by_key[k]['options']) for k in order) \
                     and not all(o in perm for o in origs):
